@@ -49,6 +49,9 @@ func Replay(o *Obligation, m *Model, opts *CheckOpts) (outcome, detail, testSrc 
 		return "no-harness", why, ""
 	}
 	if why := rp.concretize(); why != "" {
+		if strings.HasPrefix(why, "NOHARNESS ") {
+			return "no-harness", strings.TrimPrefix(why, "NOHARNESS "), ""
+		}
 		return "not-reproduced", why, ""
 	}
 	src := rp.testSource()
@@ -208,13 +211,45 @@ func (rp *replayer) concretize() string {
 			side = append(side, Le(p.v.F[2].T, IntLit(4096)), Le(p.v.F[3].T, IntLit(8192)), Eq(p.v.F[1].T, IntLit(0)))
 		}
 	}
+	// heap structure the generator cannot build (pointers, maps, interfaces, strings
+	// inside pointed-to structs) is left nil / empty: the counterexample must survive that
+	var unbuildable []*Term
+	for _, p := range rp.params {
+		pt, ok := p.ty.Underlying().(*types.Pointer)
+		if !ok || p.v.K != VScalar {
+			continue
+		}
+		for _, lf := range leavesOf(pt.Elem()) {
+			if _, _, isInt := intRange(lf.Ty); isInt || lf.Sort == SBool || strings.Contains(lf.Path, "#") {
+				if !strings.Contains(lf.Path, "#") {
+					continue
+				}
+			}
+			if acc, _ := rp.fieldAccess(pt.Elem(), lf.Acc); acc == "" && !strings.Contains(lf.Path, "#") {
+				continue // foreign unexported field (mutex internals): irrelevant to contracts
+			}
+			a := &Addr{Root: RObj, RootT: pt.Elem()}
+			name := g.compName(a, lf)
+			cell := Select(Const("H0:"+name, g.compSort(RObj, lf.Sort)), p.v.T)
+			switch lf.Sort {
+			case SInt:
+				unbuildable = append(unbuildable, Eq(cell, IntLit(0)))
+			case SStr:
+				unbuildable = append(unbuildable, Eq(cell, emptyStr))
+			}
+		}
+	}
+	side = append(side, unbuildable...)
 	vals, st := rp.solveValues(side, terms)
 	if st != "sat" {
-		side = nil
-		vals, st = rp.solveValues(nil, terms)
+		vals, st = rp.solveValues(unbuildable, terms)
 		if st != "sat" {
+			if len(unbuildable) > 0 {
+				return "NOHARNESS the counterexample needs heap structure (pointers, maps, interfaces or strings behind a parameter) that the test generator cannot build"
+			}
 			return "no model for the unsliced query (" + st + ")"
 		}
+		side = unbuildable
 	}
 	// stage 2: fix the scalars, ask for contents / pointees / predicted results
 	var fix []*Term
